@@ -161,7 +161,7 @@ static MinOut run_minimal(const std::vector<Bytes> &chain, const char *sname, co
 	for (size_t i = 0; i < chain.size(); i++) {
 		xc.vtable->start_cert(&xc.vtable, (uint32_t)chain[i].size());
 		size_t off = 0;
-		for (size_t k : parts[i]) { xc.vtable->append(&xc.vtable, chain[i].data() + off, k); off += k; }
+		for (size_t k : parts[i]) { if (k) xc.vtable->append(&xc.vtable, chain[i].data() + off, k); off += k; }   // (the class contract: len is never zero)
 		xc.vtable->end_cert(&xc.vtable);
 	}
 	MinOut o;
